@@ -4,6 +4,7 @@
 -/
 import RevalModel.Lemmas.Table
 import RevalModel.Lemmas.NoneType
+import RevalModel.Lemmas.Calendar
 
 namespace Reval.C02
 
@@ -39,6 +40,31 @@ theorem contains_semantics (o : Oracle) (m : List (Str × Value)) (k : Str) (xs 
     applyBin o .contains (.str s) (.str t) = .ok (.bool (Str.isInfix t s)) := by
   simp [applyBin, Impl.contains]
 
+/-- the calendar built-ins: for EVERY date y-m-d of the proleptic Gregorian calendar (any year) and every time of
+    day h:mi:s.ns, `year … second` of that instant return exactly y, m, d, h, mi, s -/
+theorem calendar_parts_exact (o : Oracle) (y m d h mi s ns : Int) (hv : Time.ValidDate y m d)
+    (hh : 0 ≤ h ∧ h ≤ 23) (hmi : 0 ≤ mi ∧ mi ≤ 59) (hs : 0 ≤ s ∧ s ≤ 59) (hns : 0 ≤ ns ∧ ns ≤ 999999999) :
+    let t := (Time.daysFromCivil y m d * 86400 + h * 3600 + mi * 60 + s) * Time.nsPerSec + ns
+    applyUn o .year (.dateTime t) = .ok (.int y) ∧ applyUn o .month (.dateTime t) = .ok (.int m) ∧
+    applyUn o .day (.dateTime t) = .ok (.int d) ∧ applyUn o .hour (.dateTime t) = .ok (.int h) ∧
+    applyUn o .minute (.dateTime t) = .ok (.int mi) ∧ applyUn o .second (.dateTime t) = .ok (.int s) := by
+  intro t
+  have hp := Time.timeOfDay_parts (Time.daysFromCivil y m d) h mi s ns hh hmi hs hns
+  have hc := Time.civil_daysFromCivil y m d ⟨hv.1, hv.2.1⟩ ⟨hv.2.2.1, hv.2.2.2⟩
+  simp only [applyUn, Impl.year, Impl.month, Impl.day, Impl.hour, Impl.minute, Impl.second, Time.year, Time.month,
+    Time.day]
+  rw [hp.1, hc]
+  exact ⟨rfl, rfl, rfl, by rw [hp.2.1], by rw [hp.2.2.1], by rw [hp.2.2.2]⟩
+
+/-- the day count the previous theorem refers to IS the calendar: day 0 is 1970-01-01 and consecutive dates have
+    consecutive numbers (next day of the month, first of the next month, first of the next year) -/
+theorem day_count_is_consecutive :
+    Time.daysFromCivil 1970 1 1 = 0 ∧
+    (∀ y m d, Time.daysFromCivil y m (d + 1) = Time.daysFromCivil y m d + 1) ∧
+    (∀ y m, 1 ≤ m ∧ m ≤ 11 → Time.daysFromCivil y (m + 1) 1 = Time.daysFromCivil y m (Time.lastDay y m) + 1) ∧
+    (∀ y, Time.daysFromCivil (y + 1) 1 1 = Time.daysFromCivil y 12 31 + 1) :=
+  ⟨Time.daysFromCivil_epoch, Time.daysFromCivil_next_day, Time.daysFromCivil_next_month, Time.daysFromCivil_next_year⟩
+
 /-! composition: a strict node's result is the operator applied to its children's results, evaluated left
     to right with the state threaded; an error in a child is the node's result -/
 
@@ -70,5 +96,8 @@ example : applyBin Oracle.empty .sub (.int 7) (.int 9) = .ok (.int (-2)) := by d
 example : applyBin Oracle.empty .rem (.int (-7)) (.int 2) = .ok (.int (-1)) := by decide
 example : applyBin Oracle.empty .contains (.int 6) (.int 3) = .ok (.bool true) := by decide
 example : applyUn Oracle.empty .hour (.duration (7200 * Time.nsPerSec)) = .ok (.int 2) := by decide
+example : Time.ValidDate 2000 2 29 ∧ Time.ValidDate (-1) 12 31 ∧ ¬ Time.ValidDate 1900 2 29 := by decide
+example : Time.daysFromCivil 2000 3 1 = 11017 := by decide
+example : applyUn Oracle.empty .month (.dateTime (951782400 * Time.nsPerSec)) = .ok (.int 2) := by decide   -- 2000-02-29
 
 end Reval.C02
